@@ -640,6 +640,11 @@ def stepK (K : Kind α) (cfg : Cfg) (s : DSt α) (line : String) : DSt α × Str
         (s', showH K e h ++ s'.tail)
       | _ => (s, "bad-op")
     | _, _, _, _ => (s, "bad-op")
+  | ["othermgr", vars] =>
+    -- a second manager is used on the same thread in between; the main manager is not touched
+    match vars.toNat? with
+    | some _ => fin s "ok"
+    | none => (s, "bad-op")
   | [q, a] =>
     if q = "ref" then
       match s.get a with
